@@ -1583,17 +1583,17 @@ func c24RunCase(t *testing.T, r *verifkit.Run, cs *c24Case, label string, gen fu
 				continue
 			}
 			for _, o := range outs {
-				if !c24AuthCodes[o.Code] {
-					r.Violation("denied_"+rq.API+"_entry_without_authorization_error", fmt.Sprintf("%s by principal %q lacking %s: entry %s answered with code %d, not an authorization error", rq.API, c24ReqPrincipal(rq), e.Need, e.Key, o.Code),
-						witness(i, map[string]any{"entries": ents, "reply": res}))
-					break
-				}
 				if o.Leak != "" {
 					what := o.Leak
 					if k := strings.Index(what, "("); k > 0 {
 						what = what[:k]
 					}
-					r.Violation("denied_"+rq.API+"_reply_carries_"+what, fmt.Sprintf("%s by principal %q lacking %s: entry %s carries %s", rq.API, c24ReqPrincipal(rq), e.Need, e.Key, o.Leak),
+					r.Violation("denied_"+rq.API+"_reply_carries_"+what, fmt.Sprintf("%s by principal %q lacking %s: entry %s (code %d) carries %s", rq.API, c24ReqPrincipal(rq), e.Need, e.Key, o.Code, o.Leak),
+						witness(i, map[string]any{"entries": ents, "reply": res}))
+					break
+				}
+				if !c24AuthCodes[o.Code] {
+					r.Violation("denied_"+rq.API+"_entry_without_authorization_error", fmt.Sprintf("%s by principal %q lacking %s: entry %s answered with code %d, not an authorization error", rq.API, c24ReqPrincipal(rq), e.Need, e.Key, o.Code),
 						witness(i, map[string]any{"entries": ents, "reply": res}))
 					break
 				}
@@ -1657,7 +1657,7 @@ func TestVerifC24Seq(t *testing.T) {
 		"offset commit/fetch are judged by the group permission only (the code's and the ACL model's mapping: offsets are group state), not additionally by a topic permission as in Apache Kafka",
 		"produce with acks=0 has no reply by protocol, so only inertness is demanded there",
 		"'leak nothing' (title) is read as: no record bytes (statement) and, for denied entries, none of the values the entry asks for (committed offset, members, assignment, config values)")
-	n := r.N(500, 8000)
+	n := r.N(500, 16000)
 	replay := verifkit.Replay()
 	for ci := 0; ci < n; ci++ {
 		rng := r.Rand(ci)
@@ -1706,11 +1706,11 @@ func TestVerifC24Seq(t *testing.T) {
 			break
 		}
 	}
-	r.Floor("entries_denied_that_would_have_acted", int64(r.N(600, 9000)))
-	r.Floor("mixed_requests", int64(r.N(100, 1500)))
-	r.Floor("allowed_entries_served_in_mixed_requests", int64(r.N(50, 800)))
+	r.Floor("entries_denied_that_would_have_acted", int64(r.N(600, 18000)))
+	r.Floor("mixed_requests", int64(r.N(100, 3000)))
+	r.Floor("allowed_entries_served_in_mixed_requests", int64(r.N(50, 1500)))
 	r.Floor("apis_with_denied_entries_that_would_have_acted", 17)
-	r.Floor("denied_entries_with_authorization_error_and_no_data", int64(r.N(1000, 15000)))
+	r.Floor("denied_entries_with_authorization_error_and_no_data", int64(r.N(1000, 30000)))
 }
 
 // ---------------------------------------------------------------- directed leg: every API aimed at seeded state, by principals without any right
